@@ -33,7 +33,7 @@
 (***************************************************************************)
 EXTENDS RA_SqlSem, RA_Diag, Json
 
-CONSTANTS Contents, Sources, BaseDepth, FinalOps, StartCalcs, Emit
+CONSTANTS Contents, Sources, BaseDepth, FinalOps, Starts, Emit
 
 VARIABLES src, l1, hist, rel, ref, prev, final
 vars == <<src, l1, hist, rel, ref, prev, final>>
@@ -97,20 +97,34 @@ FinalCalls(r) ==
               p \in {q \in {PLit(TRUE), Cmp("le", A, CC), Cmp("le", D, CC)} : ReqP(q) \subseteq Cols(r) \cup {"a", "c"}},
               bt \in BOOLEAN, tr \in BOOLEAN}
 
-\* StartCalcs \subseteq BOOLEAN: with TRUE the program starts with a calculated
-\* column d at the source (three columns without spending the depth bound)
+\* Starts \subseteq {"none", "calc", "xmat"}: pre-seeded histories that do not
+\* count against the depth bound - "calc": a calculated column d at the source
+\* (three columns at depth 0); "xmat": transfer to it1 followed by a
+\* materialization (a locked node in the middle of longer transfer chains)
 StartCall == [f |-> "un", op |-> Calc("d", Fn("add", <<A, B>>)), opts |-> DefaultOpts]
+StartHist(st) == CASE st = "none" -> <<>>
+                   [] st = "calc" -> <<StartCall>>
+                   [] st = "xmat" -> <<[f |-> "xfer", dest |-> "it1"], [f |-> "mat", name |-> "m1"]>>
+RECURSIVE RunCalls(_, _, _)
+RunCalls(h, r, rows) ==      \* [t, rows] after the calls of h
+    IF h = <<>> THEN [t |-> r, rows |-> rows]
+    ELSE RunCalls(Tail(h), CallResult(Head(h), r), CallRows(Head(h), r, rows))
 Init == /\ src \in Sources
         /\ l1 \in Contents
-        /\ \E sc \in StartCalcs :
-             LET leaf == IF src = "sql" THEN PlainSel(LeafL(src, l1)) ELSE LeafL(src, l1) IN
-             /\ hist = (IF sc THEN <<StartCall>> ELSE <<>>)
-             /\ rel = (IF sc THEN CallResult(StartCall, leaf) ELSE leaf)
-             /\ ref = (IF sc THEN CallRows(StartCall, leaf, l1) ELSE l1)
+        /\ \E st \in Starts :
+             /\ (st = "xmat" => src = "sql")       \* for an it1 source both pre-seeded calls would be no-ops
+             /\ LET leaf == IF src = "sql" THEN PlainSel(LeafL(src, l1)) ELSE LeafL(src, l1)
+                 run == RunCalls(StartHist(st), leaf, l1) IN
+                /\ hist = StartHist(st)
+                /\ rel = run.t
+                /\ ref = run.rows
         /\ prev = rel
         /\ final = FALSE
+NStart == IF hist # <<>> /\ hist[1] = StartCall THEN 1
+          ELSE IF Len(hist) >= 2 /\ hist[1].f = "xfer" /\ hist[2].f = "mat" /\ hist[2].name = "m1" /\ hist[1].dest = "it1" THEN 2
+          ELSE 0
 
-Base == /\ ~final /\ Len(hist) < BaseDepth + (IF hist # <<>> /\ hist[1] = StartCall THEN 1 ELSE 0)
+Base == /\ ~final /\ Len(hist) < BaseDepth + NStart
         /\ \E c \in BaseCalls(rel, hist) :
               LET r == CallResult(c, rel) IN
               /\ ~IsErr(r)
@@ -221,6 +235,10 @@ NoOpIdentity == [][(hist' # hist /\ IsNoOpCall(LastCall, rel)) => rel' = rel]_va
 
 \* a transfer always lands in the requested engine; round trips across unlocked
 \* markers add no transfer node
+\* no factory call makes a materialization (a locked node, possibly holding a
+\* cached payload) of its input disappear from the result
+MatsKept == [][{n.name : n \in MatNodes(rel)} \subseteq {n.name : n \in MatNodes(rel')}]_vars
+
 XferCount(t) == Cardinality({n \in Nodes(t) : n.k = "xfer"})
 TransferLands ==
     [][(hist' # hist /\ LastCall.f = "xfer") => Eng(rel') = LastCall.dest]_vars
